@@ -75,6 +75,37 @@ def _fault_scn(sid, kind, n, plan, raises=0, applied=False, complete_first=False
     return {"id": sid, "strategies": [{"name": "A"}], "steps": steps, "seed": 1}
 
 
+def line_family(tier):
+    """line markets (one selection id on several handicaps): orders and adopted bets on lines of a selection,
+    with and without an order on the handicap-0 runner of the same selection, crash + restart, completion after it"""
+    scns = []
+    k = 0
+    for hc in (-0.5, 1.5):
+        for also_zero in (False, True):
+            for how in ("restart", "foreign", "foreign_then_restart"):
+                for finish in ("fill", "cancel", "none"):
+                    k += 1
+                    steps = [{"op": "book"}]
+                    acts = [{"op": "place", "o": "o1", "t": "t_o1", "sel": 11, "hc": hc, "side": "BACK", "price": 2.0, "size": 4.0}]
+                    if also_zero:
+                        acts.append({"op": "place", "o": "o2", "t": "t_o2", "sel": 11, "side": "LAY", "price": 3.0, "size": 2.0})
+                    steps.append({"op": "req", "actions": acts})
+                    steps += [{"op": "run", "i": 0, "plan": {}} for _ in acts] + [{"op": "snap"}, {"op": "proc"}]
+                    if how != "restart":
+                        steps += [{"op": "foreign", "mid": "1.1", "sel": 11, "hc": hc, "known": True}, {"op": "snap"}, {"op": "proc"}]
+                    if how != "foreign":
+                        steps.append({"op": "restart"})
+                    # the adopted order completes; the strategy places again on the line
+                    if finish == "fill":
+                        steps += [{"op": "fill", "o": "o1", "amount": 4.0}, {"op": "snap"}, {"op": "proc"}]
+                    elif finish == "cancel":
+                        steps += [{"op": "lapse", "o": "o1"}, {"op": "snap"}, {"op": "proc"}]
+                    steps.append({"op": "req", "actions": [{"op": "place", "o": "o9", "t": "t_o9", "sel": 11, "hc": hc, "side": "BACK", "price": 2.2, "size": 2.0}]})
+                    steps += [{"op": "run", "i": 0, "plan": {}}, {"op": "snap"}, {"op": "proc"}]
+                    scns.append({"id": "ln%d" % k, "strategies": [{"name": "A"}], "steps": steps, "seed": 1})
+    return scns
+
+
 def run_check(prop, tier, seed, designs=None, only_live=True, replay=None):
     t0 = time.time()
     design = run_design(designs or [], tier)
@@ -94,6 +125,9 @@ def run_check(prop, tier, seed, designs=None, only_live=True, replay=None):
         scns[scn["id"]] = scn
     if prop in ("C12", "C03") and not replay:
         for scn in fault_family(tier):
+            scns[scn["id"]] = scn
+    if prop in ("C11", "C10", "C15") and not replay:
+        for scn in line_family(tier):
             scns[scn["id"]] = scn
     traces = [run_live(s) for s in scns.values()]
     # E2: behaviours of the design model MC_LiveRun generated by TLC, stepped through the real code
